@@ -10,6 +10,8 @@ import LncModel.Timeout
 import LncModel.Handshake
 import LncModel.Mnemonic
 import LncModel.Sid
+import LncModel.Stream
+import LncModel.Flush
 /-
   Line-protocol driver: one operation per input line, one canonical result per
   output line.  Imports model files only (no Mathlib, no proofs) so it links as
@@ -173,6 +175,33 @@ def pureStep (toks : List String) : String :=
         | none => (acc.1 ++ [t], acc.2 ++ [acc.1.length])) ([], [])
       " ".intercalate (labels.2.map toString)
     | none => "bad-op"
+  | ["st.read", kind, writes, ks] =>
+    -- kind: grpc | tcp | kit ; writes: sizes of the peer's Write calls ; ks: read buffer sizes
+    match (writes.splitOn ",").mapM String.toNat?, (ks.splitOn ",").mapM String.toNat? with
+    | some ws, some ks =>
+      let mk (n : Nat) (seed : Nat) : Bytes := (List.range n).map fun i => UInt8.ofNat ((i + seed) % 251)
+      let payloads := ws.zipIdx.map fun (n, i) => mk n (7 * i)
+      let recs := if kind = "tcp" then payloads.flatMap fun w => (Lnc.Mailbox.Stream.tcpWrite w).1 else payloads
+      let rd := if kind = "grpc" then Lnc.Mailbox.Stream.grpcRead (Lnc.Facts.mb_defaultGrpcWriteBufSize.getD 0)
+                else Lnc.Mailbox.Stream.bufRead
+      let res := Lnc.Mailbox.Stream.readAll rd ks ⟨[], recs⟩
+      ",".intercalate (res.1.map fun b => toString b.length) ++ s!" rest={res.2.rest.length}"
+    | _, _ => "bad-op"
+  | ["fl.seq", plainLen, budgets] =>
+    match plainLen.toNat?, (budgets.splitOn ",").mapM (fun s => match s.splitOn ":" with
+        | [a, b] => do some ((← a.toNat?), (← b.toNat?))
+        | _ => none) with
+    | some n, some bs =>
+      let hdr : Bytes := List.replicate Lnc.Mailbox.Flush.encHeaderSize 1
+      let body : Bytes := List.replicate (n + Lnc.Mailbox.Flush.macSize) 2
+      let rec go (p : Lnc.Mailbox.Flush.Pending) (l : List (Nat × Nat)) (acc : List String) : List String :=
+        match l with
+        | [] => acc
+        | (b1, b2) :: rest =>
+          let r := Lnc.Mailbox.Flush.flushOnce p b1 b2
+          go r.p rest (acc ++ [s!"{r.nn}:{showBool r.err}:{r.out.length}"])
+      ";".intercalate (go ⟨hdr, body⟩ bs [])
+    | _, _ => "bad-op"
   | ["q.mks", n] => (n.toNat?).elim "bad-op" fun n => toString (mkS n)
   | _ => "bad-op"
 
